@@ -383,7 +383,12 @@ def check_c19(sc, res):
                 return False
             sf = got_outcome[1]
             want_cls = lib.SSCSimfile if exp.kind == "ssc" else lib.SMSimfile
-            if type(sf) is not want_cls or not _same_loaded(sf, exp, lib):
+            ok_loaded = _same_loaded(sf, exp, lib)
+            if not ok_loaded and facade in NATIVE_LIKE and b"\r" in tree.files[path]:
+                # line breaks translated by text mode or kept as stored: both accepted
+                exp_raw = expected_load(tree.files[path], chosen_entry, cfg, "as-stored")
+                ok_loaded = not isinstance(exp_raw, LoadError) and _same_loaded(sf, exp_raw, lib)
+            if type(sf) is not want_cls or not ok_loaded:
                 res.violate(P, "loaded-simfile-differs", via=label, dir=d, file=chosen_entry,
                             got=ops.real_plain(sf, lib), expected=exp.plain(), options=kw_load)
                 return False
@@ -417,15 +422,23 @@ def check_c19(sc, res):
                 return
             listing = _listing_seen(disk, d, mark)
             if listing is None:
-                raise HarnessError("no listing of %s recorded" % d)
+                # The object obtained the entries without listdir() (e.g. through the
+                # filesystem's own scandir): the order it saw is unknown to the simulator, so
+                # with duplicates ignored any candidate of the kind is admissible.
+                res.stats["probe:directory-read-without-listdir"] += 1
 
-            def first_listed(cands):
+            def first_listed(cands, got):
+                if listing is None:
+                    if got is not None and isinstance(got, str) and \
+                            posixpath.basename(npath(got)) in cands:
+                        return posixpath.basename(npath(got))
+                    return sorted(cands)[0]
                 for e in listing:
                     if e in cands:
                         return e
                 return None
-            want_sm = first_listed(sm) if sm else None
-            want_ssc = first_listed(ssc) if ssc else None
+            want_sm = first_listed(sm, sd.sm_path) if sm else None
+            want_ssc = first_listed(ssc, sd.ssc_path) if ssc else None
             if dup:
                 res.stats["probe:duplicate-ignored-first-listed-wins"] += 1
             for what, got, want in (("sm_path", sd.sm_path, want_sm), ("ssc_path", sd.ssc_path, want_ssc)):
@@ -615,6 +628,12 @@ def check_c19(sc, res):
                             exp = expected_load(tree.files[cand + "/" + chosen], chosen, cfg, facade)
                             if isinstance(exp, LoadError) and exp.exc == oc[1]:
                                 d = cand
+                        elif kind == "nolisting":
+                            sm_c, ssc_c = tree.simfiles_in(cand)
+                            for chosen in (ssc_c or sm_c):
+                                exp = expected_load(tree.files[cand + "/" + chosen], chosen, cfg, facade)
+                                if isinstance(exp, LoadError) and exp.exc == oc[1]:
+                                    d = cand
                         if d:
                             break
                     if d is None:
@@ -881,13 +900,13 @@ def check_c19_changing(sc, res):
             pairs = []
             try:
                 if which == "openpack":
-                    for item in sfm.openpack(pack, **dict(fa.kw, **kw_load)):
+                    for item in sfm.openpack(fa.p(pack), **dict(fa.kw, **kw_load)):
                         pairs.append(item)
                 else:
                     d = posixpath.dirname(norm(sorted(sc["change"]["add"])[0]))
                     from simfile.dir import SimfilePack
-                    SimfilePack(pack, **fa.kw)          # a scan of the pack first
-                    pairs.append(sfm.opendir(d, **dict(fa.kw, **kw_load)))
+                    SimfilePack(fa.p(pack), **fa.kw)          # a scan of the pack first
+                    pairs.append(sfm.opendir(fa.p(d), **dict(fa.kw, **kw_load)))
             except (HarnessError, LibraryMisbehaved):
                 raise
             except Exception:
@@ -896,7 +915,7 @@ def check_c19_changing(sc, res):
             for sf, path in pairs:
                 if not isinstance(path, str):
                     raise LibraryMisbehaved("path-is-not-a-string", got=repr(path))
-                q = norm(fa.normpath(path))
+                q = norm(fa.unroot(fa.normpath(path)))
                 if q not in disk.files:
                     res.violate(P, "yielded-path-does-not-exist", via=which, path=path)
                     return
